@@ -154,9 +154,8 @@ struct Inst {
     void checkInvariants(const char *where) {
         if (!invariant.empty()) return;
         if (!(ctx.buffer.position < ctx.buffer.length)) invariant = fmt("%s: buffer.position %zu not < length %zu", where, ctx.buffer.position, ctx.buffer.length);
-        else if (ctx.error_queue.count < 0 || ctx.error_queue.count > ctx.error_queue.size) invariant = fmt("%s: queue count %d outside 0..%d", where, ctx.error_queue.count, ctx.error_queue.size);
-        else if (ctx.error_queue.rd < 0 || ctx.error_queue.rd >= ctx.error_queue.size || ctx.error_queue.wr < 0 || ctx.error_queue.wr >= ctx.error_queue.size)
-            invariant = fmt("%s: queue indices rd=%d wr=%d outside 0..%d", where, ctx.error_queue.rd, ctx.error_queue.wr, ctx.error_queue.size - 1);
+        // (the ring indices themselves are representation: only what the public API reports is bounded here)
+        else if (SCPI_ErrorCount(&ctx) < 0 || SCPI_ErrorCount(&ctx) > cfg.queueLen) invariant = fmt("%s: SCPI_ErrorCount %d outside 0..%d", where, (int) SCPI_ErrorCount(&ctx), cfg.queueLen);
         if (!inbuf->ok() || !qbuf->ok() || (heapbuf && !heapbuf->ok())) invariant = std::string(where) + ": canary after a library buffer overwritten";
     }
     bool input(const std::string &bytes) { return input(bytes.data(), (int) bytes.size()); }
